@@ -41,11 +41,15 @@ struct Hdr {
     size_t size; // requested
     size_t cap;  // usable capacity of this block (class size)
     uint64_t alloc_seq; // simulator event number at allocation
-    uint64_t flags;     // bit0: must be zero at release; bit1: carved out of a recycled page (never reused, not malloc'ed)
+    uint64_t flags;     // bit0: must be zero at release; bit1: carved out of a recycled page (never reused, not malloc'ed);
+                        // bit4: "whole page": the block IS a recycled page, handed out at the page's own address with this header kept
+                        // elsewhere - the way a real malloc re-uses freed memory (no header in front, contents left as they were)
+    uint8_t *user;      // bit4 blocks: the block's address
+    uint64_t pad;       // keeps sizeof(Hdr) + GUARD a multiple of 16 (alignment of the block behind it)
 };
-static_assert(sizeof(Hdr) == 48, "hdr");
+static_assert(sizeof(Hdr) == 64, "hdr");
 
-static inline uint8_t *user_of(Hdr *h) { return (uint8_t *)h + sizeof(Hdr) + GUARD; }
+static inline uint8_t *user_of(Hdr *h) { return (h->flags & 16) ? h->user : (uint8_t *)h + sizeof(Hdr) + GUARD; }
 static inline Hdr *hdr_of(const void *p) { return (Hdr *)((uint8_t *)p - GUARD - sizeof(Hdr)); }
 
 struct State {
@@ -92,6 +96,7 @@ static void check_block(Hdr *h, const char *where) {
         sim::violation("alloc:header", "%s: block #%llu header damaged (magic %llx)", where, (unsigned long long)h->id,
                        (unsigned long long)h->magic);
     uint8_t *u = user_of(h);
+    if (h->flags & 16) return; // no guard bands around a page that is handed out whole
     for (size_t i = 0; i < GUARD; i++)
         if (u[-(ptrdiff_t)GUARD + (ptrdiff_t)i] != GUARD_BYTE)
             sim::violation("alloc:underrun", "%s: block #%llu (size %zu, allocated at event %llu): byte %zd before the block was overwritten",
@@ -105,6 +110,7 @@ static void check_block(Hdr *h, const char *where) {
 
 static const size_t HUGE = (size_t)1 << 30; // blocks this large are address space only: mapped without backing, never filled or scanned
 static std::vector<std::pair<void *, size_t>> g_huge_maps;
+static std::vector<struct Hdr *> g_side_hdrs; // headers of whole-page blocks (kept apart from the block)
 static void *do_acquire_huge(size_t size) {
     size_t cap = class_of(size);
     size_t total = sizeof(Hdr) + GUARD + cap + GUARD;
@@ -114,7 +120,7 @@ static void *do_acquire_huge(size_t size) {
     if (m == MAP_FAILED) { fprintf(stderr, "dsim: cannot map %zu bytes of address space\n", total); _Exit(2); }
     g_huge_maps.emplace_back(m, total);
     Hdr *h = (Hdr *)m;
-    h->cap = cap; h->magic = MAGIC_LIVE; h->id = S.next_id++; h->size = size; h->alloc_seq = sim::seq(); h->flags = 4; // bit2: huge
+    h->cap = cap; h->magic = MAGIC_LIVE; h->id = S.next_id++; h->size = size; h->alloc_seq = sim::seq(); h->flags = 4; h->user = nullptr; // bit2: huge
     uint8_t *u = user_of(h);
     memset(u - GUARD, GUARD_BYTE, GUARD);
     memset(u + size, GUARD_BYTE, cap - size + GUARD);
@@ -127,6 +133,19 @@ static void *do_acquire_huge(size_t size) {
 static void *do_acquire(size_t size) {
     if (S.cfg.yield_points) sim::yield(sim::PK_HARNESS, nullptr, 1);
     if (size >= HUGE) return do_acquire_huge(size);
+    if (S.cfg.carve_recycled && size > 512 && size <= 4096 && sim::recycled_pages() > 0 && S.rng.chance(0.3)) {
+        void *pg = sim::take_recycled_page();
+        if (pg) {
+            Hdr *wh = (Hdr *)malloc(sizeof(Hdr));
+            if (!wh) { fprintf(stderr, "dsim: out of real memory\n"); _Exit(2); }
+            wh->magic = MAGIC_LIVE; wh->id = S.next_id++; wh->size = size; wh->cap = 4096; wh->alloc_seq = sim::seq(); wh->flags = 2 | 16; wh->user = (uint8_t *)pg;
+            g_side_hdrs.push_back(wh);
+            S.live[pg] = wh;
+            S.total++;
+            sim::probe("large_block_is_a_recycled_page_contents_left_as_freed");
+            return pg; // neither junk-filled nor zeroed: whatever the previous owner left is still there
+        }
+    }
     size_t cap = class_of(size ? size : 1);
     Hdr *h = nullptr;
     bool carved = false;
@@ -159,6 +178,7 @@ static void *do_acquire(size_t size) {
     h->size = size;
     h->alloc_seq = sim::seq();
     h->flags = carved ? 2 : 0;
+    h->user = nullptr;
     uint8_t *u = user_of(h);
     memset(u - GUARD, GUARD_BYTE, GUARD);
     memset(u, S.junk, size);
@@ -193,6 +213,11 @@ static void do_release(void *p, bool internal = false) {
             if (g_huge_maps[i].first == (void *)h) { syscall(SYS_munmap, g_huge_maps[i].first, g_huge_maps[i].second); g_huge_maps.erase(g_huge_maps.begin() + (long)i); break; }
         return;
     }
+    if (h->flags & 16) { // the page itself stays with the simulator until the next run starts
+        for (size_t i = 0; i < g_side_hdrs.size(); i++) if (g_side_hdrs[i] == h) { g_side_hdrs[i] = g_side_hdrs.back(); g_side_hdrs.pop_back(); break; }
+        free(h);
+        return;
+    }
     h->magic = MAGIC_FREE;
     memset(u, FREE_BYTE, h->cap + GUARD);
     POISON(u, h->cap + GUARD);
@@ -213,6 +238,14 @@ static void *vt_realloc(struct aws_allocator *, void *old, size_t oldsize, size_
     Hdr *h = it->second;
     check_block(h, "realloc");
     (void)oldsize;
+    if (h->flags & 16) {
+        size_t keep16 = h->size < newsize ? h->size : newsize;
+        void *np16 = do_acquire(newsize);
+        memcpy(np16, old, keep16);
+        do_release(old, true);
+        S.moved++;
+        return np16;
+    }
     if ((h->flags & 4) || newsize >= HUGE) {
         // huge blocks: new mapping, copy only the first and last 64 KiB worth of the common prefix (the rest is untouched address space)
         size_t keep = h->size < newsize ? h->size : newsize;
@@ -248,6 +281,8 @@ struct aws_allocator *create(const Config &cfg) {
     S.all.clear();
     for (auto &m : g_huge_maps) syscall(SYS_munmap, m.first, m.second);
     g_huge_maps.clear();
+    for (Hdr *h : g_side_hdrs) free(h); // side headers of whole-page blocks left by a run that ended early
+    g_side_hdrs.clear();
     if (g_arena && g_arena_high) {
         UNPOISON(g_arena, g_arena_high);
         memset(g_arena, 0xEE, g_arena_high); // nothing of an earlier run can be read back
